@@ -573,3 +573,10 @@ Proof.
   specialize (IH key c rest). destruct (decrypt_stream_c open f key c rest) as [[more st] c2].
   cbn [fst] in *. rewrite <- IH. reflexivity.
 Qed.
+
+Lemma both_directions_sequence : forall shared msgs, Forall rd_wf msgs ->
+  fst (recv_all (new_client_session shared) (fst (send_all (new_server_session shared) msgs)))
+  = map (fun r => Some (concat r)) msgs /\
+  fst (recv_all (new_server_session shared) (fst (send_all (new_client_session shared) msgs)))
+  = map (fun r => Some (concat r)) msgs.
+Proof. intros shared msgs H. split; [exact (server_to_client_sequence shared msgs H)|exact (client_to_server_sequence shared msgs H)]. Qed.
